@@ -2,6 +2,7 @@
 from __future__ import annotations
 
 import ast
+import copy
 from typing import Any, Dict, List, Optional, Set
 
 from .. import astutil as A
@@ -139,31 +140,86 @@ def rule_release(ctx: Ctx) -> None:
     ctx.check(bool(oh) and ast.unparse(oh[0].node.value) == "self._holds_by_order.get(order.id, ValueMap())", "C06.2",
               "the holds considered are the order's own record", ub, oh[0].stmt if oh else ub.node, "self._holds_by_order.get(order.id, ...)",
               "the record looked up is not the order's own")
-    hu = [s for s in A.stores(ub) if isinstance(s.target, ast.Name) and s.target.id == "hold_updates" and isinstance(s.node, ast.Assign)]
-    closed = [s for s in hu if isinstance(s.node.value, ast.DictComp) and "order_holds.items()" in ast.unparse(s.node.value)]
-    opened = [s for s in hu if isinstance(s.node.value, ast.DictComp) and f"{ub.params[2]}.items()" in ast.unparse(s.node.value)]
-    okc = bool(closed) and ast.unparse(closed[0].node.value.value) == "-amount" and not closed[0].node.value.generators[0].ifs \
-        and any(isinstance(a, ast.If) and closed[0].stmt in a.orelse and ast.unparse(a.test) == "order.is_open" for a in A.ancestors(closed[0].stmt))
-    ctx.check(okc, "C06.2", "a closed order releases exactly every recorded entry", ub, closed[0].stmt if closed else ub.node,
-              "{symbol: -amount for symbol, amount in order_holds.items()} on the closed branch", "closed-order release is not the negation "
-              "of the whole record")
-    oko = False
-    if opened:
-        dc = opened[0].node.value
-        val = ast.unparse(dc.value).replace(" ", "")
-        flt = " and ".join(ast.unparse(i) for i in dc.generators[0].ifs)
-        oko = val == "max(amount,-order_holds.get(symbol,Decimal(0)))" and "amount < Decimal(0)" in flt and "symbol in order_holds" in flt
-    ctx.check(oko, "C06.2", "an open order releases what it spent, never more than is held", ub, opened[0].stmt if opened else ub.node,
-              "max(amount, -held) for debited symbols that are on hold", "the release for a partial fill is not bounded by what is held "
-              "(or releases for symbols that were not debited)")
+    from .. import norm as N
     call = [c for c in A.func_calls(ub) if (A.call_name(c) or "").endswith("account_balances.update")]
     ctx.require(len(call) == 1, "C06.2: _update_balances lost its ledger update")
-    ctx.check(A.dotted(A.kw(call[0], "hold_updates")) == "hold_updates" and A.dotted(A.kw(call[0], "balance_updates")) == ub.params[2], "C06.2",
-              "the release computed is the one applied to the account", ub, call[0], "hold_updates=hold_updates",
+    hname = A.dotted(A.kw(call[0], "hold_updates"))
+    ctx.check(hname is not None and "." not in hname and A.dotted(A.kw(call[0], "balance_updates")) == ub.params[2], "C06.2",
+              "the release computed is the one applied to the account", ub, call[0], f"hold_updates={hname}",
               "the account is updated with a different release than the one computed")
+    group = N.aliases(ub, hname) if hname and "." not in hname else set()
+    hu = [s for s in A.stores(ub) if isinstance(s.target, ast.Name) and s.target.id in group and isinstance(s.node, (ast.Assign, ast.AnnAssign))
+          and isinstance(s.node.value, ast.DictComp)]
+
+    def shape(dc: ast.DictComp):
+        """(key, value, iterable, filters) with the comprehension's own variables renamed to $k/$v."""
+        gen = dc.generators[0]
+        ren = {}
+        if isinstance(gen.target, ast.Tuple) and len(gen.target.elts) == 2 and all(isinstance(e, ast.Name) for e in gen.target.elts):
+            ren = {gen.target.elts[0].id: "$k", gen.target.elts[1].id: "$v"}
+
+        def txt(e):
+            e2 = copy.deepcopy(e)
+            for x in ast.walk(e2):
+                if isinstance(x, ast.Name) and x.id in ren:
+                    x.id = ren[x.id]
+            return ast.unparse(e2).replace(" ", "")
+        return txt(dc.key), txt(dc.value), txt(gen.iter), sorted(txt(c) for i in gen.ifs for c in (i.values if isinstance(i, ast.BoolOp) and isinstance(i.op, ast.And) else [i]))
+    closed = [s for s in hu if shape(s.node.value)[2] == "order_holds.items()"]
+    opened = [s for s in hu if shape(s.node.value)[2] == f"{ub.params[2]}.items()"]
     g = ctx.cfg(ub)
     un = g.nodes_for(call[0])[0]
-    aug = [s for s in A.stores(ub) if isinstance(s.node, ast.AugAssign) and A.dotted(s.target) == "order_holds" and A.dotted(s.node.value) == "hold_updates"
+
+    def edge_kind(n, lab):
+        """closed / open / empty / None for the out-edge `lab` of test node n."""
+        if n.kind != "test":
+            return None
+        t = ast.unparse(n.ast)
+        if t == "order.is_open":
+            return {"true": "open", "false": "closed"}.get(lab)
+        if t == "not order.is_open":
+            return {"true": "closed", "false": "open"}.get(lab)
+        if t == "order_holds":
+            return {"false": "empty"}.get(lab)
+        if t == "not order_holds":
+            return {"true": "empty"}.get(lab)
+        return None
+
+    def reach_skipping(kinds, avoid=()):
+        seen, st = {g.entry}, [g.entry]
+        while st:
+            n = st.pop()
+            for (m, lab) in n.succ:
+                if lab in ("exc",) or m in seen or m in avoid or edge_kind(n, lab) in kinds:
+                    continue
+                seen.add(m)
+                st.append(m)
+        return seen
+
+    def branch_ok(sts, own, other):
+        if not sts:
+            return False
+        sn = g.nodes_for(sts[0].stmt)[0]
+        only_own = sn not in reach_skipping({own})                       # reached only through an `own` edge
+        complete = un not in reach_skipping({other, "empty"}, avoid={sn})  # every `own`, non-empty path to the ledger update assigns it
+        return only_own and complete
+    okc = bool(closed) and shape(closed[0].node.value)[:2] == ("$k", "-$v") and not shape(closed[0].node.value)[3] and branch_ok(closed, "closed", "open")
+    ctx.check(okc, "C06.2", "a closed order releases exactly every recorded entry", ub, closed[0].stmt if closed else ub.node,
+              "{symbol: -amount for symbol, amount in order_holds.items()} on the closed branch", "closed-order release is not the negation "
+              "of the whole record", key_text="closed release")
+    oko = False
+    if opened:
+        k, val, _, flt = shape(opened[0].node.value)
+        oko = k == "$k" and val == "max($v,-order_holds.get($k,Decimal(0)))" and "$v<Decimal(0)" in flt and "$kinorder_holds" in flt \
+            and branch_ok(opened, "open", "closed")
+    ctx.check(oko, "C06.2", "an open order releases what it spent, never more than is held", ub, opened[0].stmt if opened else ub.node,
+              "max(amount, -held) for debited symbols that are on hold", "the release for a partial fill is not bounded by what is held "
+              "(or releases for symbols that were not debited)", key_text="open release")
+    others = [s for s in A.stores(ub) if isinstance(s.target, ast.Name) and s.target.id in group and s.node not in [c_.node for c_ in closed + opened]
+              and not (isinstance(s.node, (ast.Assign, ast.AnnAssign)) and (isinstance(s.node.value, ast.Name) or ast.unparse(s.node.value) in ("{}", "None", "dict()")))]
+    ctx.check(not others, "C06.2", "the release has no other source", ub, others[0].stmt if others else ub.node, "only {}, the closed form and the open form",
+              "the release applied can be something other than the closed/open forms", key_text="other release sources")
+    aug = [s for s in A.stores(ub) if isinstance(s.node, ast.AugAssign) and A.dotted(s.target) == "order_holds" and A.dotted(s.node.value) in group
            and isinstance(s.node.op, ast.Add)]
     dele = [s for s in A.stores(ub) if s.kind == "delete" and "self._holds_by_order[order.id]" in ast.unparse(s.stmt)]
     ctx.check(bool(aug) and bool(dele), "C06.2", "the record follows the account: += release while open, deleted when closed", ub,
@@ -171,7 +227,7 @@ def rule_release(ctx: Ctx) -> None:
               "same release / not deleted on close: holds leak or are released twice")
     for s in aug + dele:
         sn = g.nodes_for(s.stmt)[0]
-        tests_bal = [n for n in g.nodes if n.kind == "test" and ast.unparse(n.ast) in (f"{ub.params[2]} or hold_updates", f"hold_updates or {ub.params[2]}")]
+        tests_bal = [n for n in g.nodes if n.kind == "test" and ast.unparse(n.ast) in (f"{ub.params[2]} or {hname}", f"{hname} or {ub.params[2]}")]
         p = _path_avoiding_nodes_not_via_false(g, sn, {un}, tests_bal)
         ctx.check(p is None, "C06.2", "the record changes only after the account accepted the release", ub, s.stmt,
                   "ledger update dominates the record change (except when there is nothing to apply)",
